@@ -119,6 +119,38 @@ LI = "zkabacus-crypto/src/lib.rs"
 mutant("balance-bound-off-by-one", LI, "        if value > i64::MAX as u64 {", "        if value >= i64::MAX as u64 {", ["C17", "C04"])
 mutant("try-add-wrapping", ST, "MerchantBalance::try_new(self.into_inner() + rhs.into_inner())", "MerchantBalance::try_new(self.into_inner().wrapping_add(rhs.into_inner()) & (i64::MAX as u64))", ["C17"])
 mutant("started-serialises-states-swapped", CU, "pub struct Started {\n    new_state: State,\n    old_state: State,", "pub struct Started {\n    #[serde(rename = \"old_state\")]\n    new_state: State,\n    #[serde(rename = \"new_state\")]\n    old_state: State,", [], why="bincode ignores field names: behaviour-preserving edit, must NOT raise an alarm")
+# --- the repaired defects, re-introduced (reverse patch of each `fix:` commit): the check that found it must report it again
+def revert(name, subject_prefix, expect, why):
+    log = sh("git", "-C", "/repo", "log", "--format=%H %s").stdout.splitlines()
+    hit = [l.split(" ", 1)[0] for l in log if l.split(" ", 1)[1].startswith(subject_prefix)]
+    if not hit:
+        print("SKIP (fix commit not found):", name); return
+    d = sh("git", "-C", "/repo", "diff", hit[0], hit[0] + "^").stdout
+    open(os.path.join(OUT, name + ".patch"), "w").write(d)
+    index.append({"name": name, "file": "(reverse of fix commit)", "expect": expect, "why": why})
+revert("revert-fix-D2-array-push", "fix: array element decoder", ["C16"], "D2 re-introduced: [G; N] decoder pushes element N+1 into a full ArrayVec")
+revert("revert-fix-D3-vec-prealloc", "fix: Vec element decoder", ["C16"], "D3 re-introduced: Vec<G> decoder pre-allocates the announced length")
+revert("revert-fix-D4-balance-range", "fix: balances are range-checked", ["C15"], "D4 re-introduced: balances above 2^63-1 decode")
+revert("revert-fix-D1a-establish-scalars", "fix: establish proof challenge", ["C01", "C12"], "D1a re-introduced: revealed establish commitment scalars unhashed")
+revert("revert-fix-D1b-pay-scalars", "fix: pay proof challenge", ["C12", "C02"], "D1b re-introduced: revealed pay commitment scalars unhashed")
+revert("revert-fix-D5-amount-abs", "fix: PaymentAmount::to_scalar", ["C17"], "D5 re-introduced: abs() overflow on i64::MIN")
+# --- more customer-side acceptance checks, completion, context binding, restore
+mutant("customer-complete-does-not-verify", CU, "        match close_state_signature.verify(config, &self.state.close_state()) {\n            // If so, save it and enter the `Inactive` state.", "        match Verified {\n            // If so, save it and enter the `Inactive` state.", ["C03"], why="Requested::complete accepts any closing signature")
+mutant("customer-lock-does-not-verify", CU, "        match close_state_signature.verify(config, &self.new_state.close_state()) {", "        match Verified {", ["C03"], why="Started::lock accepts any closing signature and reveals the old revocation pair")
+mutant("merchant-complete-payment-always-ok", "zkabacus-crypto/src/merchant.rs", "            Failed => Err(self),\n        }\n    }\n}", "            Failed => Ok(BlindedPayToken::sign(rng, self.config, self.blinded_state)),\n        }\n    }\n}", ["C05"], why="pay token issued whatever pair is presented")
+mutant("nonce-decode-rejects-short", NO, "        if n != CLOSE_SCALAR {", "        if n != CLOSE_SCALAR && n.to_bytes()[31] >= 4 {", ["C20"], why="restore refuses nonces below 2^250 (about 1 in 29 honest nonces): generation still produces them")
+def both_sides_pay_context():
+    full = os.path.join(WT, P); s = open(full).read()
+    a = "            // integrate context\n            .with_bytes(context.as_bytes())\n"
+    if s.count(a) != 2:
+        print("SKIP pay-hash-drops-context"); return
+    s = s.replace(a, "")
+    open(full, "w").write(s)
+    d = sh("git", "-C", WT, "diff").stdout
+    open(os.path.join(OUT, "pay-hash-drops-context.patch"), "w").write(d)
+    sh("git", "-C", WT, "checkout", "--", ".")
+    index.append({"name": "pay-hash-drops-context", "file": P, "expect": ["C06", "C12"], "why": "context no longer hashed into the pay challenge, prover and verifier alike"})
+both_sides_pay_context()
 # --- behaviour-preserving edits: NO check may raise an alarm (exit 0 everywhere)
 mutant("neutral-reorder-establish-proof-fields", P, "    // Proof objects.\n    state_proof: SignatureRequestProof<5>,\n    close_state_proof: SignatureRequestProof<5>,\n}\n\nimpl EstablishProof {",
        "    // Proof objects.\n    close_state_proof: SignatureRequestProof<5>,\n    state_proof: SignatureRequestProof<5>,\n}\n\nimpl EstablishProof {", [], why="NEUTRAL: wire layout of EstablishProof changes (fields re-ordered), behaviour does not")
